@@ -391,7 +391,7 @@ func (ex *Exec) unknownCall(st *State, ref string, recv *Val, args []*Val, resT 
 				if _, isStruct := pt.Elem().Underlying().(*types.Struct); isStruct {
 					sh := ex.eng.sh.shapeOf(pt.Elem())
 					if !sh.IsLeaf() {
-						l := &Loc{Heap: true, TKey: typeKey(pt.Elem()), Ref: a.S, Sh: sh, T: pt.Elem()}
+						l := &Loc{Heap: true, TKey: heapTypeKey(pt.Elem()), Ref: a.S, Sh: sh, T: pt.Elem()}
 						ex.writeLoc(st, l, ex.freshValSh(sh, "callee"))
 					}
 				}
@@ -594,6 +594,16 @@ func (ex *Exec) calleeCtx(c *Contract, fn *types.Func, recv *Val, args []*Val, o
 			sc.binds[n] = recv
 		}
 		sc.binds["this"] = recv
+		// generic receiver: map the type parameters to the type arguments of this receiver
+		if recv.T != nil {
+			if rn := namedOf(recv.T); rn != nil && rn.TypeArgs() != nil && rn.Origin().TypeParams() != nil {
+				sc.tsubst = map[string]types.Type{}
+				tps := rn.Origin().TypeParams()
+				for i := 0; i < tps.Len() && i < rn.TypeArgs().Len(); i++ {
+					sc.tsubst[tps.At(i).Obj().Name()] = rn.TypeArgs().At(i)
+				}
+			}
+		}
 	}
 	np := sig.Params().Len()
 	for i := 0; i < np; i++ {
